@@ -190,6 +190,65 @@ def directed_earlier_result(chk):
     chk.add_phase("directed history: an earlier analysis result after later analyze() calls on the same Analyzer")
 
 
+def directed_inplace_edits(chk):
+    """long-lived emulator objects across IN-PLACE changes of what they were given (no setter is called, so only a comparison of the
+    current configuration can notice): (a) single-shot Sampler.sample() after the input / a Parameter changed, with no other read in
+    between - deterministic circuits, so one shot decides; (b) an Analyzer whose circuit gains a loss element (same mode count, same
+    photon number: the set of possible outputs grows by the states with fewer photons); (c) the same after a rule was added to its
+    PostSelection object in place. Each read is compared with a freshly created object."""
+    import lightworks as lw
+    from lightworks import emulator as emu
+    # (a)
+    par = lw.Parameter(1.0)
+    c = lw.Circuit(2); c.bs(0, 1, reflectivity=par)          # reflectivity 1: photons stay, 0: they cross
+    s = emu.Sampler(c, lw.State([1, 0]))
+    hist = []
+    for step, change, want in (("first shot", lambda: None, (1, 0)), ("input_state = |0,1>", lambda: setattr(s, "input_state", lw.State([0, 1])), (0, 1)),
+                               ("Parameter.set(0)", lambda: par.set(0.0), (1, 0)), ("input_state = |1,0>", lambda: setattr(s, "input_state", lw.State([1, 0])), (0, 1)),
+                               ("Parameter.set(1)", lambda: par.set(1.0), (1, 0))):
+        change()
+        hist.append(step)
+        chk.count(key="inplace-sample/" + step)
+        try:
+            got = tuple(s.sample().s)
+        except Exception as e:  # noqa: BLE001
+            chk.violation("raised/sample", "Sampler.sample() raised %s: %s" % (type(e).__name__, e), script={"directed": "single shots", "history": list(hist)}, sig={"call": "sampler.sample"})
+            break
+        if got != want:
+            chk.violation("stale/sampler/sample", "Sampler.sample() after %s (no other read in between) returned %s; the circuit is deterministic and a fresh Sampler "
+                          "returns %s" % (step, got, want), script={"directed": "single shots", "history": list(hist)}, sig={"call": "sampler.sample", "directed": "single_shot"})
+            break
+    # (b), (c)
+    for what in ("loss element added to the circuit", "rule added to the PostSelection object"):
+        c2 = lw.Circuit(2); c2.bs(0, 1, reflectivity=0.3)
+        ps = lw.PostSelection()
+        an = emu.Analyzer(c2)
+        an.post_selection = ps
+        ins = lw.State([1, 1])
+        an.analyze(ins)
+        if what.startswith("loss"):
+            c2.loss(0, 0.4)
+        else:
+            ps.add(0, 1)
+        chk.count(key="inplace-analyzer/" + what)
+        try:
+            r = an.analyze(ins)
+            fresh = emu.Analyzer(c2)
+            fresh.post_selection = ps
+            rf = fresh.analyze(ins)
+        except Exception as e:  # noqa: BLE001
+            chk.violation("raised/analyze", "Analyzer.analyze raised %s: %s after a %s" % (type(e).__name__, e, what), script={"directed": "in-place edit", "what": what},
+                          sig={"call": "Analyzer.analyze", "directed": "inplace"})
+            continue
+        a = {tuple(o.s): float(r[ins, o]) for o in r.outputs}
+        b = {tuple(o.s): float(rf[ins, o]) for o in rf.outputs}
+        if set(a) != set(b) or any(abs(a[k] - b[k]) > 1e-12 for k in b) or abs(r.performance - rf.performance) > 1e-12:
+            chk.violation("stale/analyzer/analyze", "a long-lived Analyzer after a %s: outputs %s performance %.6f, a fresh Analyzer gives %s performance %.6f"
+                          % (what, sorted(a.items()), r.performance, sorted(b.items()), rf.performance), script={"directed": "in-place edit", "what": what},
+                          sig={"call": "Analyzer.analyze", "directed": "inplace"})
+    chk.add_phase("directed histories: in-place edits (single shots after input / Parameter changes; Analyzer after its circuit gained a loss element / its rules a member)")
+
+
 def run(tier):
     chk = Check(PID, tier)
     chk.rule = ("cases = behaviours of LwCache (reconfigurations: reassign / edit circuit in place / shared Parameter / input / source / backend / "
@@ -217,6 +276,7 @@ def run(tier):
     directed_truncation(chk)
     directed_failed_recalculation(chk)
     directed_earlier_result(chk)
+    directed_inplace_edits(chk)
     chk.assumptions = ["TLC 1.8", "the world of the replay: two 3-mode lossy circuits that differ only in their herald photon number, one shared Parameter, "
                        "one PostSelection object; 'same distribution' = same keys and values to 1e-12, same seeded samples"]
     return chk.finish()
